@@ -139,6 +139,8 @@ func runC19(c *Ctx) {
 	ruleMappingNotReordered(c, "C19.13")
 	ruleSentinelWrapped(c, "C19.14", "storage", "engine", "csvimport")
 	ruleCheckedNameLookup(c, "C19.15", "csvimport.colDataTypes")
+	ruleNoFloatDetour(c, "C19.16", "csvimport.csvToSql")
+	ruleErrorsWrappedWithW(c, "C19.17")
 	c.Rule("C19.11", "the stored row reads back as the record's values: the row codec is symmetric per column type (every value the writer emits is consumed by the reader, empty strings included) and its length prefixes are byte lengths (C08.4)")
 	checkCodecPair(c, "C19.11", "storage.(*Tuple).Encode", "storage.(*Tuple).Decode")
 	c.Rule("C19.2", "in the import loop a bad record never stops or alters the others: every error edge before the INSERT (CSV parse error, short record, conversion error) reports and continues; only a non-parse read error or EOF leaves the loop; the short-record guard rejects exactly the records that lack the largest mapped index")
